@@ -35,8 +35,8 @@ def lookup (st : St) (key : Sym) (env : Val) (home : Name) : Lookup :=
 def ampersand : Sym := .named cs!"&"
 
 /-- the parameter loop of `make_function_internal`; `count` is the length of the whole parameter list -/
-def collectParams (source : Name) (count : Nat) : List Val → Nat → List Val → Except Val (List Val × Bool)
-  | [], _, acc => .ok (acc.reverse, false)
+def collectParams (source : Name) (count : Nat) : List Val → Nat → List Val → Except Val (List Val × Option Val)
+  | [], _, acc => .ok (acc.reverse, none)
   | p :: ps, i, acc =>
     match p.get with
     | .sym s =>
@@ -45,9 +45,9 @@ def collectParams (source : Name) (count : Nat) : List Val → Nat → List Val 
           match ps with
           | q :: _ =>
             match q.get with
-            | .sym _ => .ok ((q :: acc).reverse, true)
+            | .sym _ => .ok (acc.reverse, some q)
             | _      => .error (makeError cs!"param-is-not-symbol" source [(cs!"param", q)])
-          | [] => .ok (acc.reverse, true)
+          | [] => .ok (acc.reverse, none)
         else if i + 2 > count then .error (makeError cs!"missing-rest-parameter" source [])
         else .error (makeError cs!"multiple-rest-parameters" source [])
       else collectParams source count ps (i + 1) (p :: acc)
@@ -61,7 +61,7 @@ def makeFunctionInternal (args : List Val) (env : Val) (mod source : Name) (kind
     | none    => .err (wrongType source params .list)
     | some ps =>
       match collectParams source ps.length ps 0 [] with
-      | .ok (actual, rest) => .ok (.fn kind rest (.ofList actual) body env mod)
+      | .ok (actual, rest) => .ok (.fn kind (rest.getD .nil) (.ofList actual) body env mod)
       | .error e           => .err e
   | _ => .err (wrongArity source 2 args.length)
 
@@ -74,21 +74,15 @@ def bindParams (source : Name) (nargs : Nat) : List Val → List Val → Nat →
     | []      => .error (wrongArity source (i + 1) nargs)
 
 /-- `pair_params_and_args` -/
-def pairParamsAndArgs (rest : Bool) (params env : Val) (name : Option Name) (args : List Val) : Res Val :=
+def pairParamsAndArgs (rest : Val) (params env : Val) (name : Option Name) (args : List Val) : Res Val :=
   let source := name.getD cs!"#<function>"
   let ps := (listToVec params).getD []
-  if rest then
-    match ps.reverse with
-    | [] => .crash cs!"pair_params_and_args: rest parameter without parameters"
-    | restParam :: initRev =>
-      match bindParams source args.length initRev.reverse args 0 env with
-      | .error e => .err e
-      | .ok (env', remaining, _) => .ok (.cons (.cons restParam (.ofList remaining)) env')
-  else
-    match bindParams source args.length ps args 0 env with
-    | .error e => .err e
-    | .ok (env', remaining, i) =>
-      if remaining.isEmpty then .ok env' else .err (wrongArity source i args.length)
+  match bindParams source args.length ps args 0 env with
+  | .error e => .err e
+  | .ok (env', remaining, i) =>
+    match rest.restParam? with
+    | some restParam => .ok (.cons (.cons restParam (.ofList remaining)) env')
+    | none => if remaining.isEmpty then .ok env' else .err (wrongArity source i args.length)
 
 /-- the `error` entry of `read`'s result, as `load-all` passes it on -/
 def readErrorDetails (msg : List Char) (loc : Loc) : Val :=
